@@ -40,6 +40,32 @@ Definition wf_dterm (x : dterm) : Prop :=
   match x with DA a => wf_datom a | DSet l => Forall wf_datom l /\ len_ok l end.
 
 (* ------------------------------------------------------------------ *)
+(** * 0b. Truncated division of an int64 *)
+
+Lemma quot_abs_le a b : b <> 0 -> Z.abs (a ÷ b) <= Z.abs a.
+Proof.
+  intros Hb. rewrite <- Z.quot_abs by exact Hb.
+  rewrite Z.quot_div_nonneg by lia.
+  apply Z.div_le_upper_bound; [lia|]. nia.
+Qed.
+
+(* the quotient of an int64 leaves the range of int64 only as MinInt64 / -1 *)
+Lemma quot_range a b : - 9223372036854775808 <= a < 9223372036854775808 -> b <> 0 ->
+  - 9223372036854775808 <= a ÷ b <= 9223372036854775808 /\
+  (a ÷ b = 9223372036854775808 -> a = - 9223372036854775808 /\ b = -1).
+Proof.
+  intros Ha Hb. assert (H := quot_abs_le a b Hb). split; [lia|].
+  intros E. assert (Ea : a = - 9223372036854775808) by lia. split; [exact Ea|].
+  subst a.
+  destruct (Z.eq_dec b (-1)) as [E1|E1]; [exact E1|]. exfalso.
+  destruct (Z.eq_dec b 1) as [E2|E2]. { subst b. rewrite Z.quot_1_r in E. lia. }
+  assert (H2 : Z.abs (-9223372036854775808 ÷ b) <= 4611686018427387904).
+  { rewrite <- Z.quot_abs by exact Hb. rewrite Z.quot_div_nonneg by lia.
+    apply Z.div_le_upper_bound; lia. }
+  lia.
+Qed.
+
+(* ------------------------------------------------------------------ *)
 (** * 1. The script *)
 
 Ltac go_consts :=
@@ -68,12 +94,30 @@ Ltac go_feq :=
   | |- DBytes _ = DBytes _ => apply f_equal
   end; try reflexivity.
 
+(* what is known about every quotient a / b of the goal whose dividend is an int64 *)
+Ltac go_quot_facts :=
+  repeat match goal with
+  | |- context [Z.quot ?a ?b] =>
+      lazymatch goal with
+      | _ : b <> 0 -> _ /\ (Z.quot a b = _ -> _) |- _ => fail
+      | _ =>
+          let Q := fresh "Hq" in
+          assert (Q : b <> 0 ->
+                      - 9223372036854775808 <= Z.quot a b <= 9223372036854775808 /\
+                      (Z.quot a b = 9223372036854775808 -> a = - 9223372036854775808 /\ b = -1))
+            by (apply quot_range; lia)
+      end
+  end.
+
 (* a leaf: equal outcomes, equal up to arithmetic, or contradictory conditions *)
 Ltac go_leaf :=
   first
     [ reflexivity
     | congruence
-    | go_consts; first [ lia | exfalso; lia | go_feq; lia ] ].
+    | go_consts; go_quot_facts; first [ lia | exfalso; lia | go_feq; lia ] ].
+
+(* the partial operations of the prelude (division, make) are conditionals *)
+Ltac go_partial := unfold i64_quo, i64_rem, u64_quo, u64_rem, make_list.
 
 (* split one conditional of the goal *)
 Ltac go_split1 :=
@@ -155,7 +199,7 @@ Proof.
 Qed.
 
 (* rewrite the list primitives of the prelude into the model's; then the script applies *)
-Ltac go_lists := rewrite ?idx_spec.
+Ltac go_lists := rewrite ?idx_spec; go_partial.
 
 (* two readings nthN l a / nthN l b of the same list at provably equal indexes *)
 Ltac go_same_index :=
@@ -242,6 +286,7 @@ Proof.
   go_solve.
 Qed.
 Print Assumptions go_SymbolTable_Str_eq.
+Global Opaque go_SymbolTable_Str.
 
 Example go_SymbolTable_Str_ex :
   go_SymbolTable_Str [[97;98]%N] 1024%N = Ok [97;98]%N /\
@@ -260,6 +305,7 @@ Proof.
   go_solve.
 Qed.
 Print Assumptions go_SymbolTable_Var_eq.
+Global Opaque go_SymbolTable_Var.
 
 Example go_SymbolTable_Var_ex :
   go_SymbolTable_Var [[97;98]%N] 1024%N = Ok [97;98]%N /\
@@ -335,27 +381,95 @@ Ltac go_split_finds :=
   | |- context [find_from ?p ?l ?i] => let E := fresh "Hf" in destruct (find_from p l i) eqn:E
   end.
 
+(** *** Loop lemmas, independent of where the loop stands and of what it returns *)
+
+(* SEARCH: a body that looks at the element only through [v == s], goes on with
+   the loop-carried variables unchanged when the test fails, and leaves the
+   function when it succeeds.  Whatever it returns then ([body j s st]: an index,
+   a pair (index, found), a term, with or without the table) is kept as it is. *)
+Lemma range_from_search {S R} (s : bytes) (body : Z -> bytes -> S -> step S R) :
+  (forall i v st, body i v st = if bytes_eqb v s then body i s st else Continue st) ->
+  (forall i st, exists r, body i s st = Done r) ->
+  forall l i st,
+    range_from body i l st =
+    match find_from (fun v => bytes_eqb v s) l i with
+    | Some j => body j s st
+    | None => Continue st
+    end.
+Proof.
+  intros H1 H2 l. induction l as [|x l IH]; intros i st; cbn [range_from find_from]; [reflexivity|].
+  rewrite H1. destruct (bytes_eqb x s).
+  - destruct (H2 i st) as [r E]. rewrite E. reflexivity.
+  - apply IH.
+Qed.
+
+(* FOLD: a body that always goes on, with loop-carried variables [g st v], as long
+   as an invariant P of the variables and the rest of the list holds *)
+Lemma range_from_fold {A S R} (g : S -> A -> S) (P : S -> list A -> Prop)
+    (body : Z -> A -> S -> step S R) :
+  (forall i v st l, P st (v :: l) -> body i v st = Continue (g st v) /\ P (g st v) l) ->
+  forall l i st, P st l -> range_from body i l st = Continue (fold_left g l st).
+Proof.
+  intros H l. induction l as [|x l IH]; intros i st HP; cbn [range_from fold_left]; [reflexivity|].
+  destruct (H i x st l HP) as [E HP']. rewrite E. apply IH. exact HP'.
+Qed.
+
+(* the two hypotheses of [range_from_search], for the body found in the goal *)
+Ltac go_search_body s :=
+  let i := fresh "i" in let v := fresh "v" in let st := fresh "st" in
+  intros i v st; go_units; go_red; rewrite ?(bytes_eqb_sym s v); rewrite ?bytes_eqb_refl;
+  destruct (bytes_eqb v s); cbn [negb andb orb]; go_red; reflexivity.
+Ltac go_search_done s :=
+  let i := fresh "i" in let st := fresh "st" in
+  intros i st; go_red; rewrite ?bytes_eqb_refl; cbn [negb andb orb]; go_red; eexists; reflexivity.
+
+(* replace EVERY loop of the goal that searches for s, wherever it stands (in the
+   function itself or in a helper that has been unfolded) *)
+Ltac go_search_loop1 s :=
+  match goal with
+  | |- context [range_loop ?body ?L ?s0] =>
+      let H1 := fresh "Hbody" in let H2 := fresh "Hdone" in
+      assert (H1 : forall i v st, body i v st = if bytes_eqb v s then body i s st else Continue st)
+        by go_search_body s;
+      assert (H2 : forall i st, exists r, body i s st = Done r) by go_search_done s;
+      change (range_loop body L s0) with (range_from body 0 L s0);
+      rewrite (range_from_search s body H1 H2 L 0 s0); clear H1 H2;
+      go_red; rewrite ?bytes_eqb_refl; cbn [negb andb orb]; go_red
+  end.
+Ltac go_search_loops s := repeat go_search_loop1 s.
+
+(* [go_fold_loop g P]: replace a loop of the goal by fold_left g, under the invariant P *)
+Ltac go_fold_loop g P side :=
+  match goal with
+  | |- context [range_loop ?body ?L ?s0] =>
+      let H := fresh "Hfold" in
+      assert (H : forall i v st l, P st (v :: l) -> body i v st = Continue (g st v) /\ P (g st v) l);
+      [ side
+      | change (range_loop body L s0) with (range_from body 0 L s0);
+        rewrite (range_from_fold g P body H L 0 s0); [ clear H; go_red | clear H ] ]
+  end.
+
+(* the functions below: unfold the function and every helper it calls (hint
+   database [go_fn]; functions already proved are opaque and stay), replace the
+   loops, then compare with the model's index_of through find_from *)
+Ltac go_lookup s :=
+  autounfold with go_fn; go_symbols_pre; go_red;
+  go_search_loops s;
+  rewrite !index_of_find_from; change (Z.of_N 0) with 0;
+  let Hd := fresh "Hd" in assert (Hd := len_int_defaults);
+  go_split_finds; go_find_bounds; cbn [option_map fst snd]; go_red;
+  rewrite ?len_int_app; change (len_int [s]) with 1;
+  go_leaf.
+
 (** SymbolTable.Sym: the index of s as a String term, nil when s is unknown *)
 Theorem go_SymbolTable_Sym_eq : forall (t : table) (s : bytes),
   table_fits t ->
   go_SymbolTable_Sym t s = Ok (option_map (fun i => DA (DStr i)) (sym_find t s)).
 Proof.
-  intros t s Ht. unfold go_SymbolTable_Sym, sym_find. go_symbols_pre.
-  go_loop defaults (fun (l : list bytes) (i : Z) (st : unit) =>
-    match find_from (fun v => bytes_eqb v s) l i with
-    | Some j => @Done unit (res (option dterm)) (Ok (Some (DA (DStr (wrap_u64 j)))))
-    | None => Continue tt
-    end).
-  go_loop t (fun (l : list bytes) (i : Z) (st : unit) =>
-    match find_from (fun v => bytes_eqb v s) l i with
-    | Some j => @Done unit (res (option dterm)) (Ok (Some (DA (DStr (wrap_u64 (i64_add go_OFFSET j))))))
-    | None => Continue tt
-    end).
-  rewrite !index_of_find_from. change (Z.of_N 0) with 0.
-  assert (Hd := len_int_defaults).
-  go_split_finds; go_find_bounds; cbn [option_map]; go_red; go_leaf.
+  intros t s Ht. unfold go_SymbolTable_Sym, sym_find. go_lookup s.
 Qed.
 Print Assumptions go_SymbolTable_Sym_eq.
+Global Opaque go_SymbolTable_Sym.
 
 Example go_SymbolTable_Sym_ex :
   go_SymbolTable_Sym [[97;98]%N; [99]%N] [99]%N = Ok (Some (DA (DStr 1025))) /\
@@ -368,23 +482,10 @@ Theorem go_SymbolTable_Insert_eq : forall (t : table) (s : bytes),
   table_fits t ->
   go_SymbolTable_Insert t s = (fst (sym_insert t s), Ok (snd (sym_insert t s))).
 Proof.
-  intros t s Ht. unfold go_SymbolTable_Insert, sym_insert, sym_find. go_symbols_pre.
-  go_loop defaults (fun (l : list bytes) (i : Z) (st : unit) =>
-    match find_from (fun v => bytes_eqb v s) l i with
-    | Some j => @Done unit (table * res N) (t, Ok (wrap_u64 j))
-    | None => Continue tt
-    end).
-  go_loop t (fun (l : list bytes) (i : Z) (st : unit) =>
-    match find_from (fun v => bytes_eqb v s) l i with
-    | Some j => @Done unit (table * res N) (t, Ok (wrap_u64 (i64_add go_OFFSET j)))
-    | None => Continue tt
-    end).
-  rewrite !index_of_find_from. change (Z.of_N 0) with 0.
-  assert (Hd := len_int_defaults).
-  go_split_finds; go_find_bounds; cbn [option_map fst snd]; go_red; rewrite ?len_int_app;
-    change (len_int [s]) with 1; go_leaf.
+  intros t s Ht. unfold go_SymbolTable_Insert, sym_insert, sym_find. go_lookup s.
 Qed.
 Print Assumptions go_SymbolTable_Insert_eq.
+Global Opaque go_SymbolTable_Insert.
 
 Example go_SymbolTable_Insert_ex :
   go_SymbolTable_Insert [[97;98]%N] [99]%N = ([[97;98]%N; [99]%N], Ok 1025%N) /\
@@ -403,17 +504,17 @@ Theorem go_SymbolTable_Extend_eq : forall (t other : table),
   len_int t + len_int other + 1025 < two63 ->
   go_SymbolTable_Extend t other = (sym_extend t other, Ok tt).
 Proof.
-  intros t other Hfit. unfold go_SymbolTable_Extend, sym_extend.
-  match goal with
-  | |- context [range_loop ?body other t] =>
-      assert (Hloop : forall l i st, len_int st + len_int l + 1025 < two63 ->
-                range_from body i l st = Continue (fold_left (fun t s => fst (sym_insert t s)) l st))
-  end.
-  { intro l. induction l as [|x l IH]; intros i st Hpre; cbn [range_from fold_left]; [reflexivity|].
-    rewrite len_int_cons in Hpre. assert (Hl := len_int_nonneg l). assert (Hi := sym_insert_len st x).
-    rewrite go_SymbolTable_Insert_eq by (go_consts; lia).
-    go_red. apply IH. lia. }
-  unfold range_loop. rewrite Hloop by exact Hfit. reflexivity.
+  intros t other Hfit. unfold go_SymbolTable_Extend, sym_extend. autounfold with go_fn. go_red.
+  go_fold_loop (fun (t : table) (s : bytes) => fst (sym_insert t s))
+               (fun (st : table) (l : list bytes) => len_int st + len_int l + 1025 < two63)
+               ltac:(let i := fresh "i" in let v := fresh "v" in let st := fresh "st" in
+                     let l := fresh "l" in let HP := fresh "HP" in
+                     intros i v st l HP; rewrite len_int_cons in HP;
+                     assert (Hl := len_int_nonneg l); assert (Hi := sym_insert_len st v);
+                     go_red; rewrite go_SymbolTable_Insert_eq by (go_consts; lia);
+                     go_red; split; [reflexivity | lia]).
+  - reflexivity.
+  - exact Hfit.
 Qed.
 Print Assumptions go_SymbolTable_Extend_eq.
 
@@ -485,7 +586,8 @@ Proof. vm_compute. split; reflexivity. Qed.
 (* ------------------------------------------------------------------ *)
 (** * 5. (B) datalog/expressions.go: integers, comparisons, booleans *)
 
-(* calls of functions that are already proved are replaced by the model function;
+(* calls of functions that are already proved are replaced by the model function
+   (each is made opaque right after its theorem, so that [autounfold] leaves the calls in place);
    every other generated definition (helpers, Type(), dispatch on the dynamic
    type) is unfolded through the hint database that GeneratedFn.v fills *)
 Ltac go_side := first [ assumption | go_consts; lia ].
@@ -500,8 +602,8 @@ Ltac go_tags := cbn [N.eqb Pos.eqb negb andb orb].
 
 Ltac go_eval :=
   cbn [wf_dterm wf_datom] in *;
-  go_model; go_calls; autounfold with go_fn;
-  go_red; go_tags; rewrite ?Z.gtb_ltb, ?Z.geb_leb;
+  go_model; autounfold with go_fn; go_calls; go_partial;
+  go_red; go_tags; rewrite ?Z.gtb_ltb, ?Z.geb_leb, ?len_int_length;
   repeat (go_split1; go_red; go_tags);
   go_leaf.
 
@@ -615,4 +717,63 @@ Example go_bool_ex :
   go_Negate_Eval (DA (DBool true)) [] = Ok (DA (DBool false)) /\
   go_Negate_Eval (DSet []) [] = Err EIllTyped /\
   go_Parens_Eval (DSet []) [] = Ok (DSet []).
+Proof. vm_compute. repeat split. Qed.
+
+(* ------------------------------------------------------------------ *)
+(** * 6. (C) strings through the table: Length, Prefix, Suffix, Regex *)
+
+Theorem go_Length_Eval_eq : forall (t : table) (v : dterm),
+  wf_dterm v -> len_ok t ->
+  go_Length_Eval v t = eval_unary_D t ULength v.
+Proof. intros t v Hv Ht. go_eval_unary v. Qed.
+Print Assumptions go_Length_Eval_eq.
+
+Theorem go_Prefix_Eval_eq : forall rx (t : table) (l r : dterm),
+  wf_dterm l -> wf_dterm r -> len_ok t ->
+  eval_binary_D rx t BPrefix l r = (t, go_Prefix_Eval l r t).
+Proof. intros rx t l r Hl Hr Ht. go_eval_binary l r. Qed.
+Print Assumptions go_Prefix_Eval_eq.
+
+Theorem go_Suffix_Eval_eq : forall rx (t : table) (l r : dterm),
+  wf_dterm l -> wf_dterm r -> len_ok t ->
+  eval_binary_D rx t BSuffix l r = (t, go_Suffix_Eval l r t).
+Proof. intros rx t l r Hl Hr Ht. go_eval_binary l r. Qed.
+Print Assumptions go_Suffix_Eval_eq.
+
+Example go_strings_ex :
+  go_Length_Eval (DA (DStr 1024)) [[97;98;99]%N] = Ok (DA (DInt 3)) /\
+  go_Length_Eval (DA (DStr 1025)) [[97;98;99]%N] = Ok (DA (DInt 21)) /\
+  go_Length_Eval (DSet [DInt 1; DInt 1]) [] = Ok (DA (DInt 2)) /\
+  go_Length_Eval (DA (DInt 1)) [] = Err EIllTyped /\
+  go_Prefix_Eval (DA (DStr 1024)) (DA (DStr 1025)) [[97;98;99]%N; [97;98]%N] = Ok (DA (DBool true)) /\
+  go_Suffix_Eval (DA (DStr 1024)) (DA (DStr 1025)) [[97;98;99]%N; [97;98]%N] = Ok (DA (DBool false)) /\
+  go_Suffix_Eval (DA (DStr 1024)) (DA (DInt 1)) [] = Err EIllTyped.
+Proof. vm_compute. repeat split. Qed.
+
+(* regexp.Compile does not look at the subject: the oracle [rx pattern subject]
+   of Model/Expr.v says "does not compile" for one subject iff for all *)
+Definition rx_uniform (rx : bytes -> bytes -> option bool) : Prop :=
+  forall p s, rx p s = None <-> rx p [] = None.
+
+Theorem go_Regex_Eval_eq : forall rx (t : table) (l r : dterm),
+  rx_uniform rx -> wf_dterm l -> wf_dterm r -> len_ok t ->
+  eval_binary_D rx t BRegex l r = (t, go_Regex_Eval rx l r t).
+Proof.
+  intros rx t l r Hrx Hl Hr Ht.
+  destruct l as [[lv|lz|ls|ld|lb|lb]|ll]; destruct r as [[rv|rz|rs|rd|rb|rb]|rl]; try solve [go_eval].
+  cbn [wf_dterm wf_datom] in *. go_model. unfold go_Regex_Eval. go_calls. go_red.
+  unfold rx_compile_err, rx_match.
+  assert (Hu := Hrx (sym_str t rs) (sym_str t ls)).
+  destruct (rx (sym_str t rs) []) as [b0|] eqn:E0; destruct (rx (sym_str t rs) (sym_str t ls)) as [b|] eqn:E;
+    go_red; try reflexivity.
+  - destruct Hu as [Hu _]. specialize (Hu eq_refl). discriminate.
+  - destruct Hu as [_ Hu]. specialize (Hu eq_refl). discriminate.
+Qed.
+Print Assumptions go_Regex_Eval_eq.
+
+Example go_Regex_Eval_ex :
+  let rx := fun p s => if bytes_eqb p [40]%N then None else Some (bytes_eqb p s) in
+  go_Regex_Eval rx (DA (DStr 1024)) (DA (DStr 1024)) [[97]%N] = Ok (DA (DBool true)) /\
+  go_Regex_Eval rx (DA (DStr 1024)) (DA (DStr 1025)) [[97]%N; [40]%N] = Err ERegex /\
+  go_Regex_Eval rx (DA (DStr 1024)) (DA (DInt 1)) [[97]%N] = Err EIllTyped.
 Proof. vm_compute. repeat split. Qed.
